@@ -191,10 +191,19 @@ impl SubCheck for C14 {
         g.generics = true;
         g.wrappers = false;
         g.foreign_types = true;
-        (gen::program(&g), ws::slots(1..=5, 1..=8), proptest::collection::vec(0usize..8, 12), proptest::collection::vec(any::<u8>(), 64), ws::lang_strategy(), any::<bool>())
+        (gen::program(&g), ws::slots(1..=5, 1..=8), proptest::collection::vec(0usize..8, 12), proptest::collection::vec(any::<u8>(), 64), ws::lang_strategy(), 0usize..4)
             .prop_map(|(items, slots, assign, style_seed, lang, map_foreign)| {
                 let (ws, styles) = build(items, &slots, &assign, &style_seed);
-                Case { ws, lang, styles, mapped: if map_foreign { vec!["Uuid".into(), "ForeignGen".into()] } else { vec![] } }
+                let mut mapped: Vec<String> = if map_foreign > 0 { vec!["Uuid".into(), "ForeignGen".into()] } else { vec![] };
+                // half of the mapped tables also map a typeshared type that another file refers to (by `use` or by a qualified
+                // path): it is rendered by its mapped name there, so nothing is left to import
+                if map_foreign >= 2 {
+                    let all = ws.all_items();
+                    if let Some((_, n, _)) = styles.iter().find(|(_, n, _)| all.iter().any(|i| i.name == *n && i.serde_rename.is_none() && i.generics.is_empty())) {
+                        mapped.push(n.clone());
+                    }
+                }
+                Case { ws, lang, styles, mapped }
             })
             .boxed()
     }
@@ -422,6 +431,31 @@ impl SubCheck for C14 {
                     }
                 }
             }
+            // a mapped type is "excluded from import references" (Language::ignored_reference_types): wherever it is named
+            // it is written as its mapped name, so no file imports it - except through a glob `use`, which imports every
+            // type of the crate it names
+            for m in c.mapped.iter() {
+                let Some((def_stem, def_as)) = def_name.get(m) else { continue };
+                for (fi, f) in c.ws.files.iter().enumerate() {
+                    let cn = Workspace::crate_name_of(&f.crate_dir);
+                    let Some((stem, of)) = file_of(&cn) else { continue };
+                    if stem == *def_stem {
+                        continue;
+                    }
+                    let crate_has_glob = c.ws.files.iter().filter(|g| g.crate_dir == f.crate_dir).any(|g| g.uses.iter().any(|u| u.contains('*')));
+                    if crate_has_glob {
+                        continue;
+                    }
+                    if of.imports.iter().any(|i| i.names.iter().any(|n| n == def_as)) {
+                        let style = c.styles.iter().find(|(i2, n, _)| *i2 == fi && n == m).map(|x| format!("{:?}", x.2)).unwrap_or_else(|| "other-file-of-the-crate".into());
+                        out.push(Violation::new(
+                            format!("{}/import-of-mapped-type/{}", lang.short(), style),
+                            format!("{}: `{m}` is mapped to `Mapped{m}` by type_mappings, yet `{stem}.{}` imports `{def_as}` from `{def_stem}`; imports: {:?}", lang.name(), lang.ext(), of.imports),
+                        ));
+                        break;
+                    }
+                }
+            }
             // no import names something its module does not define; nothing imported from the own module
             for (stem, of) in &observed {
                 for imp in &of.imports {
@@ -463,7 +497,7 @@ impl SubCheck for C14 {
 }
 
 pub fn run(run: &Run) {
-    run.set_rule("workspaces of 1-5 crates (directory names with - / _ / digits), files at depth 0-3 under <crate>/src, 3-12 uniquely named items with random references; every reference to an item in another file gets the `use` (single, grouped, nested group, glob) or qualified path a compiling program would need - crate:: paths inside a crate, <other_crate>::.. across crates; serde-renamed targets; optional type mappings of foreign types (which must not be imported); one language per case through the real binary with -d. Oracle: (1) one output file per crate with annotated items, named after the crate (dashes as underscores; case-insensitive for Swift), every item defined in exactly that file; (2) the definitions across all files equal single-file mode's for the same sources (compared as recovered declarations); (3) TS / Kotlin: every reference from file F to an item defined in G != F is imported by exactly that name from exactly G, no import names something its module does not define, nothing is imported from the own module. Non-trivial = >= 2 crates and >= 1 cross-crate reference.");
+    run.set_rule("workspaces of 1-5 crates (directory names with - / _ / digits), files at depth 0-3 under <crate>/src, 3-12 uniquely named items with random references; every reference to an item in another file gets the `use` (single, grouped, nested group, glob) or qualified path a compiling program would need - crate:: paths inside a crate, <other_crate>::.. across crates; serde-renamed targets; optional type mappings of foreign types and of one typeshared type that another file refers to (mapped types must not be imported); one language per case through the real binary with -d. Oracle: (1) one output file per crate with annotated items, named after the crate (dashes as underscores; case-insensitive for Swift), every item defined in exactly that file; (2) the definitions across all files equal single-file mode's for the same sources (compared as recovered declarations); (3) TS / Kotlin: every reference from file F to an item defined in G != F is imported by exactly that name from exactly G, no import names something its module does not define, nothing is imported from the own module. Non-trivial = >= 2 crates and >= 1 cross-crate reference.");
     run.assume("item names are unique across the workspace (same-named types in different crates are outside this generator)");
     if !cli::bin_available() {
         run.inconclusive("typeshare binary not built");
